@@ -17,6 +17,16 @@ CLAIMED = {
         "Decides for every function of the library (all eight backends, 1.6k functions) that appends to the API-driven fixed tables (program/compiler instructions, variables, constants, tokens, rule sets, targets) are dominated by a capacity test, that the x86 encoders bound the 64 KiB code buffer, that the compile driver stores the JIT pointer only after the chunk test and a fresh error test, installs a fallback before any error exit and never returns 0 from the error exit, and that no loop is definitely divergent or exits only through an equality that feasible operand values skip. Abort-freedom and general termination are not decided.",
         "Trusted: clang 14 AST/CFG; arming table tables/c05_rcap.json (which tables are filled by API input, confirmed by replays); may-value sets for the equality-exit rule. Declined: ORC_ASSERT reachability, quantitative time bounds, labels/fixups whose count is fixed by backend skeletons.",
         "DESIGN.md §4 C05"),
+    "C12": (
+        "table cross-check against GNU as as ISA oracle (mnemonic+operand forms built from the table's own rows, bytes decoded into prefix/escape/opcode/ext, legacy and VEX), enum/table alignment, switch exhaustiveness over OrcX86InsnType, register-name tables",
+        "Decides that every row of orc_x86_opcodes[] that has an emission site encodes exactly what a standard assembler reads from the row's mnemonic in the operand forms (mm / xmm / VEX / GP) it is emitted with, that OrcX86OpcodeIdx and the table are aligned row by row, that all instruction types are handled by every text and byte emitter switch with immediates on both sides, and that register-name tables are in encoding order. Per-program identity (operand selection, relaxation, fixups, alignment filler) is not decided.",
+        "Trusted: binutils `as` of the image as reader of AT&T syntax; the field semantics of OrcX86Opcode as implemented by output_opcode. Three rep-movs rows excluded as dead code (reason in rules/c12.py). The assembler only ever sees strings built from the table; no Orc code is run.",
+        "DESIGN.md §4 C12"),
+    "C13": (
+        "sibling cross-check of encoder and decoder CFGs (per-tag field sequences on all paths), composition of class mappings through the constructors' stores, enum/table numbering",
+        "Decides that orc_bytecode_from_program and orc_bytecode_parse_function agree on the field layout of every tag and of instruction operands, that parameter and variable classes map back to themselves through the constructors the decoder calls, that ORC_BC_<op> numbering equals 32 + table index with all opcodes below the 255 escape, and that the integer codecs mirror each other. Behavioural equality of the reconstructed program is not decided.",
+        "Trusted: clang AST/CFG. Declined: names/alignments that the format does not carry, 64-bit constants passed through int APIs, asserting boundary values.",
+        "DESIGN.md §4 C13"),
 }
 
 NOT_YET = "check under construction in this round; not claimed until its rules are exact on the current tree"
